@@ -199,7 +199,9 @@ class Instantiator:
                 tbl = self.step(tbl, st)
             except _Abort:
                 raise
-            except Exception as ex:  # noqa: BLE001
+            except (KeyboardInterrupt, SystemExit):
+                raise
+            except BaseException as ex:  # noqa: BLE001  (pyo3 PanicException is a BaseException)
                 self.out.exc = type(ex).__name__
                 self.out.exc_msg = str(ex)[:300]
                 self.out.exc_at = (p["id"], i)
@@ -230,7 +232,19 @@ def export_frame(tbl):
     with warnings.catch_warnings():
         warnings.simplefilter("ignore")
         df = tbl >> X.export(pdt.Polars())
+    raw_dtypes = [str(t) for t in df.dtypes]
     casts = {c: pl.Float64 for c, t in df.schema.items() if isinstance(t, pl.Decimal)}
+    # finding #22: SQLite exports NOT(<conjunction>) as integer; values are compared as booleans,
+    # the type mismatch itself is C12's business
+    try:
+        from pydiverse.transform._internal.tree import types as T
+        from pydiverse.common import Bool
+        static = {c.name: T.without_const(c.dtype()) for c in tbl}
+        for c, t in df.schema.items():
+            if t.is_integer() and static.get(c) == Bool():
+                casts[c] = pl.Boolean
+    except Exception:  # noqa: BLE001
+        pass
     if casts:
         df = df.cast(casts)
-    return list(df.columns), [list(r) for r in df.rows()], [str(t) for t in df.dtypes]
+    return list(df.columns), [list(r) for r in df.rows()], raw_dtypes
